@@ -37,4 +37,6 @@ Verify everything yourself: run the existing tests with the change applied, run 
 
 Environment: no network. Use `GOFLAGS=-mod=mod GOPROXY=off go build/test …` inside {wt}; do NOT set GOTOOLCHAIN or GOSUMDB. Wrap long commands in `timeout`. Never `pkill -f` with a pattern that could match your own shell. NEVER use `git stash` (the stash is shared between worktrees and other people use sibling worktrees): to test without your change use `git diff > /tmp/x.diff; git checkout -- .; …; git apply /tmp/x.diff`. The project's cmd/pint script tests bind fixed TCP ports and other people run the same suite on this machine, so run test suites inside a private network namespace: `unshare -rn bash -c 'ip link set lo up; GOFLAGS=-mod=mod GOPROXY=off go test -vet=off -count=1 ./...'`. The vendored Prometheus packages in the module cache (promql engine, rulefmt) compile offline; promqltest/tsdb do not.
 
+Be careful that EVERY git command you run has your scratch worktree (or a temporary demo repository you created under /tmp) as its working directory: never /verif or /repo. Deliver each demonstration either as a Go test file named zz_seed_test.go directly in the change's output directory (with the package clause of the package it has to be copied into) or as a shell script `demo.sh <worktree>` that builds pint from the given worktree and exits non-zero exactly when the property is broken. The timing-based tests `TestSeriesCheck/series_present_on_other_servers_/_timeout_2` (internal/checks) and `TestScripts/0054_watch_metrics_prometheus` (cmd/pint) flake when the machine is loaded: re-run them alone before concluding anything from them.
+
 Your final message: for each of the two changes, a 5-line summary (files touched, mechanism, what it needs to manifest, test-suite result, demonstration result). If you could only produce one valid change, say so.""")
